@@ -124,7 +124,9 @@ class C09(scen.WorldProp):
                       "on_join": scen.humans_on_join(humans, "Wheatley", wb),
                       "bot": scen.bot_cfg({"type": "placeholder"}, up_down_in=True, stop_at_rounds=False,
                                           user_name="Wheatley", server_id=5),
-                      "rhythm": scen.rhythm_cfg("wait", inertia=1.0, peal_speed=ps)}
+                      "rhythm": scen.server_rhythm_cfg(ps),
+                      # (half of them through the real `main(["server-mode", ...])`: server mode is waiting mode)
+                      "server_mode_waits": True, "prefer_main": rng.random() < 0.5}
                 yield {"k": "world", "scenario": sc, "humans": humans, "style": rng.choice(["late", "late", "mixed"]),
                        "seed": rng.getrandbits(32), "lead": None, "server": True}
                 continue
